@@ -639,7 +639,7 @@ func ruleP4(c *Ctx) *RuleResult {
 		r.undecided("threshold-branch", pos, fname(fn), "comparison does not feed a branch")
 	} else {
 		ret := blockReturn(ifi.Block().Succs[0])
-		if ret != nil && len(ret.Results) == 2 && isNilConst(ret.Results[1]) && c.isNodeOfType(ret.Results[0], "ASTIdentity") {
+		if ret != nil && len(ret.Results) == 2 && isNilConst(retResults(ret)[1]) && c.isNodeOfType(retResults(ret)[0], "ASTIdentity") {
 			r.ok("threshold-branch", pos, fname(fn), "below the threshold the right-hand side is the identity node, no error")
 		} else {
 			r.viol("threshold-branch", pos, fname(fn), "the stop branch does not return (identity node, nil)")
@@ -767,12 +767,12 @@ func ruleParen(c *Ctx) *RuleResult {
 	}
 	for _, b := range fn.Blocks {
 		ret := blockReturn(b)
-		if ret == nil || clauseOfInstr(sw, ret) != cl || len(ret.Results) != 2 || !isNilConst(ret.Results[1]) {
+		if ret == nil || clauseOfInstr(sw, ret) != cl || len(ret.Results) != 2 || !isNilConst(retResults(ret)[1]) {
 			continue
 		}
 		r.Instances++
 		pos := c.pos(ret.Pos())
-		ex, ok := ret.Results[0].(*ssa.Extract)
+		ex, ok := retResults(ret)[0].(*ssa.Extract)
 		good := false
 		if ok && ex.Index == 0 {
 			if call, ok := ex.Tuple.(*ssa.Call); ok && staticCallee(call) == c.A.ParseExpr && clauseOfInstr(sw, call) == cl {
